@@ -2,8 +2,14 @@ ENGINE_C_NOTE = (' Plus Engine C: pairs of calls into the same functions from tw
                  'in a fresh interpreter state; results must match a sequential order.')
 
 
+import json as _json
+import os as _os
+ADDITIONS = _json.load(open(_os.path.join(_os.path.dirname(__file__), 'manifest_additions.json')))
+
+
 def fill(reg0):
     def reg(pid, category, text, note, technique, design_ref, engine):
+        text += ADDITIONS.get(pid, '')
         if pid in ('C06', 'C07', 'C14', 'C15', 'C16', 'C19'):
             text += ENGINE_C_NOTE
             technique += ' + exhaustive single-preemption interleaving of call pairs'
